@@ -28,14 +28,15 @@ static int pm(int p, const char *s)
 }
 
 /* command lists: ex text and a reference interpretation */
-enum { L_D, L_M1D, L_P1D, L_DOTP1D, L_S1, L_S2, L_PU, L_0PU, L_I, L_A, L_C, L_M1A, L_DPU, L_SM1D, L_GD, L_GS, L_YPU, L_KD, L_C2, L_I2, L_A2, L_CR, NLIST };
+enum { L_D, L_M1D, L_P1D, L_DOTP1D, L_S1, L_S2, L_PU, L_0PU, L_I, L_A, L_C, L_M1A, L_DPU, L_SM1D, L_GD, L_GS, L_YPU, L_KD, L_C2, L_I2, L_A2, L_CR, L_ZD, L_P9D, NLIST };
 static const char *list_txt[NLIST] = {
 	"d", "-1d", "+1d", ".,+1d", "s/a/b/", "s/a/ab/g", "pu a", "0pu a", "i", "a", "c", "-1a", "d|pu", "s/a/c/|-1d",
 	"g/b/d", "g/a/s/a/b/", "y b|pu b", "ka|'ad", "c", "i", "a", ".,+1c",
+	"'zd", "+9d",		/* rejected at the first execution: the global stops with every other line still marked */
 };
-static const int list_blocks[NLIST] = {0, 0, 0, 0, 0, 0, 0, 0, 1, 1, 1, 1, 0, 0, 0, 0, 0, 0, 1, 1, 1, 1};
+static const int list_blocks[NLIST] = {0, 0, 0, 0, 0, 0, 0, 0, 1, 1, 1, 1, 0, 0, 0, 0, 0, 0, 1, 1, 1, 1, 0, 0};
 /* text blocks: single line "x" (or "a" for -1a); the last four lists use two-line blocks whose lines match the patterns */
-static const char *list_block_text[NLIST] = {0, 0, 0, 0, 0, 0, 0, 0, "x\n", "x\n", "x\n", "a\n", 0, 0, 0, 0, 0, 0, "a\nab\n", "a\nb\n", "ab\n\n", "b\n"};
+static const char *list_block_text[NLIST] = {0, 0, 0, 0, 0, 0, 0, 0, "x\n", "x\n", "x\n", "a\n", 0, 0, 0, 0, 0, 0, "a\nab\n", "a\nb\n", "ab\n\n", "b\n", 0, 0};
 
 static void subst(struct xm *m, int idx, const char *from, const char *to, int g)
 {
@@ -94,6 +95,8 @@ static int exec_list(struct xm *m, int l)
 {
 	int r;
 	switch (l) {
+	case L_ZD: return 1;		/* mark z is never set */
+	case L_P9D: return 1;		/* no buffer here has 9 lines after the current one */
 	case L_D: return rel(m, XC_D, 0, 0, 0, 0, 0, NULL, 0);
 	case L_M1D:
 		/* "-1" on line 1 is address 0, which :d accepts as an empty range (known finding c06-unresolved-accepted) */
@@ -163,7 +166,9 @@ static int exec_list(struct xm *m, int l)
 static long n_glob, n_changed, n_exec_total;
 static int trace_every;
 
-static void one_case(const char **lines, int n, int p, int ng, int rg, int l)
+/* chain: instead of the undo step, two further globals run on the state the first one left behind
+ * (marks of an earlier global must not leak into a later one) */
+static void one_case(const char **lines, int n, int p, int ng, int rg, int l, int chain)
 {
 	struct xm m;
 	char text[256] = "", cmd[128], feed[4096] = "", exp[512] = "", pre[512];
@@ -238,6 +243,31 @@ static void one_case(const char **lines, int n, int p, int ng, int rg, int l)
 	} else if (starved || nvx_pend_pos < nvx_pend_len) {
 		nv_viol("c15-executions", DESC ": the command list ran %s than the %d times the reference runs it (text blocks %s)", nv_esc(pre, -1), nv_esc(cmd, -1),
 			starved ? "more often" : "less often", execs, starved ? "ran out" : "left over");
+	} else if (chain) {
+		static const char *follow[] = {"2,3v/zzz/s/$/!/", "%v/zzz/s/$/!/"};
+		int f;
+		for (f = 0; f < 2; f++) {
+			char exp2[512] = "";
+			char *got2;
+			int fb = f == 0 ? 1 : 0, fe = f == 0 ? 2 : m.n - 1;
+			if (fe < m.n && fb <= fe)
+				for (i = fb; i <= fe; i++)
+					strncat(m.ln[i].s, "!", XM_LNSZ - strlen(m.ln[i].s) - 1);
+			for (i = 0; i < m.n; i++) {
+				strcat(exp2, m.ln[i].s);
+				strcat(exp2, "\n");
+			}
+			ex_command((char *) follow[f]);
+			n_exec_total += fe < m.n && fb <= fe ? fe - fb + 1 : 0;
+			got2 = lbuf_cp(xb, 0, lbuf_len(xb));
+			if (strcmp(got2, exp2)) {
+				nv_viol("c15-followup", DESC " then \":%s\": buffer \"%s\", reference \"%s\" (a later global must visit exactly its own lines)",
+					nv_esc(pre, -1), nv_esc(cmd, -1), follow[f], nv_esc(got2, -1), nv_esc(exp2, -1));
+				free(got2);
+				break;
+			}
+			free(got2);
+		}
 	} else if (strcmp(exp, pre)) {
 		/* one undo restores the text before the global */
 		char *und;
@@ -280,7 +310,8 @@ static void run_case(long j)
 			}
 			for (ng = 0; ng < 3; ng++)
 				for (rg = 0; rg < 4; rg++) {
-					one_case(lines, n, p, ng, rg, l);
+					one_case(lines, n, p, ng, rg, l, 0);
+					one_case(lines, n, p, ng, rg, l, 1);
 					if (++cases_since_clear > 500) {
 						lbuf_saved(xb, 1);
 						cases_since_clear = 0;
